@@ -217,14 +217,47 @@ theorem bfs_false_closed (g : Graph) (hg : g.WF) (s : HK) (hs : Consistent g s) 
       rw [hx] at hcl
       exact ⟨w, rfl, hs.bwd v w hx, hs.mV_lt hg v w hx, hcl⟩
 
+/-! ### (e) termination -/
+
+/-- `hk_phase_progress`: in a consistent state, if the BFS reaches NIL (`dist[NIL] != inf`, the
+    `while` condition is true) then the phase that follows runs within the DFS fuel, keeps the
+    matching consistent and makes it strictly larger. -/
+theorem hk_phase_progress (g : Graph) (hg : g.WF) (s : HK) (hs : Consistent g s)
+    (d : Option Nat → Nat) (hb : bfs g s = some d) (hnil : d none ≠ g.inf) :
+    ∃ s', phase g (List.range g.nU) { s with dist := d } = some s' ∧ Consistent g s' ∧
+      (collect s.mU g.nU).length < (collect s'.mU g.nU).length := by
+  obtain ⟨d', hd', hfin⟩ := bfs_spec g s (hs.mV_lt hg)
+  rw [hb] at hd'
+  cases hd'
+  have hnil' : d none < g.inf := by
+    have := hfin.inv.le none trivial
+    simp only at this
+    omega
+  obtain ⟨u, hu, hfree, hp⟩ := bfs_path g s.mU s.mV d hfin hnil'
+  obtain ⟨s1, hph, hs1, _, hmono, hprog⟩ := phase_spec g hg (List.range g.nU)
+    { s with dist := d } (fun a ha => List.mem_range.1 ha) (hs.of_eq rfl rfl)
+    (fun x hx => hfin.inv.le x hx)
+  refine ⟨s1, hph, hs1, ?_⟩
+  obtain ⟨a, ha, ha1, ha2⟩ := hprog ⟨u, List.mem_range.2 hu, hfree, hp⟩
+  have h1 := cntFree_lt hmono ha1 ha2 g.nU ha
+  have h2 := collect_length s.mU g.nU
+  have h3 := collect_length s1.mU g.nU
+  simp only at h1
+  omega
+
+/-- `HopcroftKarp(graph)()` returns normally: none of the fuels (BFS queue, DFS depth, outer loop)
+    is ever exhausted. -/
+theorem hk_terminates (g : Graph) (hg : g.WF) : ∃ M, hopcroftKarp g = .ok M := by
+  obtain ⟨s, hs⟩ := hkRun_total g hg
+  exact ⟨collect s.mU g.nU, by simp [hopcroftKarp, hs]⟩
+
 /-! ### the whole function -/
 
-/-- `hk_terminates_partial`: every normal exit of `minimum_vertex_cover` is correct - the internal
-    matching is valid and maximum, the two lists are ascending, contain only existing vertices,
-    touch every edge, have combined size `|M|`, and no smaller cover exists.
-    Missing for the full termination clause: that the fuel of the *outer* loop is never exhausted
-    (`hk_phase_progress`); see `mvc_never_fails_partial` for the exits that are excluded. -/
-theorem hk_terminates_partial (g : Graph) (hg : g.WF) (M : List (Nat × Nat)) (cu cv : List Nat)
+/-- Every normal exit of `minimum_vertex_cover` is correct - the internal matching is valid and
+    maximum, the two lists are ascending, contain only existing vertices, touch every edge, have
+    combined size `|M|`, and no smaller cover exists.  (Uses only (a), (c) and the cover half of
+    (b): it does not depend on the termination argument.) -/
+theorem mvc_ok_correct (g : Graph) (hg : g.WF) (M : List (Nat × Nat)) (cu cv : List Nat)
     (h : minimumVertexCover g = .ok (M, cu, cv)) :
     IsMatching g.edge M ∧ IsCover g.edge cu cv ∧ (∀ u ∈ cu, u < g.nU) ∧ (∀ v ∈ cv, v < g.nV) ∧
     cu.Pairwise (· < ·) ∧ cv.Pairwise (· < ·) ∧ cu.length + cv.length = M.length ∧
@@ -243,53 +276,55 @@ theorem hk_terminates_partial (g : Graph) (hg : g.WF) (M : List (Nat × Nat)) (c
       obtain ⟨a, b, c', d, e, f, o1, o2⟩ := cover_ok_sound g hg M0 hM c.1 c.2 hc
       exact ⟨hM, a, b, c', d, e, f, o1, o2⟩
 
-/-- The `assert` of `minimum_vertex_cover` never fails, and neither the BFS fuel nor the
-    exploration fuel is ever exhausted. -/
-theorem mvc_never_fails_partial (g : Graph) (hg : g.WF) :
-    minimumVertexCover g ≠ .error .assertion ∧ minimumVertexCover g ≠ .error .fuelExplore := by
-  have key : ∀ M, hopcroftKarp g = .ok M → ∃ cu cv, coverOf g M = .ok (cu, cv) := by
-    intro M hM0
-    have hM := hk_matching_valid g M hM0
-    unfold hopcroftKarp at hM0
-    split at hM0
-    · exact absurd hM0 (by simp)
-    · rename_i s hrun
-      simp only [Except.ok.injEq] at hM0
-      subst hM0
-      obtain ⟨hs, hb, hnil⟩ := hkLoop_final g _ _ s (init_consistent g) hrun
-      obtain ⟨hfree, hclosed⟩ := final_closure g hg s hs hb hnil
-      obtain ⟨cu, cv, hc, _⟩ := koenig_cover g hg _ hM _ hfree hclosed
-      exact ⟨cu, cv, hc⟩
-  unfold minimumVertexCover
-  cases hM0 : hopcroftKarp g with
-  | error e =>
-    simp only
-    constructor
-    · intro he
-      simp only [Except.error.injEq] at he
-      subst he
-      -- hopcroftKarp never raises the cover assertion
-      unfold hopcroftKarp at hM0
-      split at hM0
-      · rename_i e' hrun
-        simp only [Except.error.injEq] at hM0
-        subst hM0
-        exact hkLoop_error g _ _ _ hrun (Or.inl rfl)
-      · exact absurd hM0 (by simp)
-    · intro he
-      simp only [Except.error.injEq] at he
-      subst he
-      unfold hopcroftKarp at hM0
-      split at hM0
-      · rename_i e' hrun
-        simp only [Except.error.injEq] at hM0
-        subst hM0
-        exact hkLoop_error g _ _ _ hrun (Or.inr rfl)
-      · exact absurd hM0 (by simp)
-  | ok M =>
-    obtain ⟨cu, cv, hc⟩ := key M hM0
-    simp only [hc]
-    constructor <;> simp
+/-- C14 for the model, every well-formed graph: `minimum_vertex_cover` returns normally (no fuel is
+    exhausted, its `assert` never fails - `mvc_assert_never_fails`), and the result is as stated
+    in `mvc_ok_correct`. -/
+theorem mvc_correct (g : Graph) (hg : g.WF) :
+    ∃ M cu cv, minimumVertexCover g = .ok (M, cu, cv) ∧ hopcroftKarp g = .ok M ∧
+      IsMatching g.edge M ∧ IsCover g.edge cu cv ∧ (∀ u ∈ cu, u < g.nU) ∧ (∀ v ∈ cv, v < g.nV) ∧
+      cu.Pairwise (· < ·) ∧ cv.Pairwise (· < ·) ∧ cu.length + cv.length = M.length ∧
+      (∀ M', IsMatching g.edge M' → M'.length ≤ M.length) ∧
+      (∀ cu' cv', IsCover g.edge cu' cv' → cu.length + cv.length ≤ cu'.length + cv'.length) := by
+  obtain ⟨s, hrun⟩ := hkRun_total g hg
+  have hM0 : hopcroftKarp g = .ok (collect s.mU g.nU) := by simp [hopcroftKarp, hrun]
+  have hM := hk_matching_valid g _ hM0
+  obtain ⟨hs, hb, hnil⟩ := hkLoop_final g _ _ s (init_consistent g) hrun
+  obtain ⟨hfree, hclosed⟩ := final_closure g hg s hs hb hnil
+  obtain ⟨cu, cv, hc, _⟩ := koenig_cover g hg _ hM _ hfree hclosed
+  have hmvc : minimumVertexCover g = .ok (collect s.mU g.nU, cu, cv) := by
+    simp [minimumVertexCover, hM0, hc]
+  exact ⟨_, cu, cv, hmvc, hM0, mvc_ok_correct g hg _ cu cv hmvc⟩
+
+/-- The same, end to end from the constructor arguments: for non-empty sides and in-range entries
+    (repeated entries and isolated vertices allowed) the graph is built and the returned lists touch
+    every *entry*, contain only vertices below `nU` / `nV`, and have the size of a maximum matching
+    of the entries; any other cover of the entries is at least as large. -/
+theorem mvc_correct_input (nU nV : Nat) (es : List (Nat × Nat)) (hU : 0 < nU) (hV : 0 < nV)
+    (hes : ∀ p ∈ es, p.1 < nU ∧ p.2 < nV) :
+    ∃ g M cu cv, mkGraph nU nV es = some g ∧ minimumVertexCover g = .ok (M, cu, cv) ∧
+      (∀ p ∈ M, p ∈ es) ∧ (M.map Prod.fst).Nodup ∧ (M.map Prod.snd).Nodup ∧
+      (∀ p ∈ es, p.1 ∈ cu ∨ p.2 ∈ cv) ∧ (∀ u ∈ cu, u < nU) ∧ (∀ v ∈ cv, v < nV) ∧
+      cu.Nodup ∧ cv.Nodup ∧ cu.length + cv.length = M.length ∧
+      (∀ M' : List (Nat × Nat), (∀ p ∈ M', p ∈ es) → (M'.map Prod.fst).Nodup →
+        (M'.map Prod.snd).Nodup → M'.length ≤ M.length) ∧
+      (∀ cu' cv' : List Nat, (∀ p ∈ es, p.1 ∈ cu' ∨ p.2 ∈ cv') →
+        cu.length + cv.length ≤ cu'.length + cv'.length) := by
+  have hsome := (mkGraph_isSome_iff nU nV es).2 ⟨hU, hV, hes⟩
+  cases hg0 : mkGraph nU nV es with
+  | none => rw [hg0] at hsome; simp at hsome
+  | some g =>
+    obtain ⟨hg, e1, e2, hedge⟩ := mkGraph_spec nU nV es g hg0
+    obtain ⟨M, cu, cv, hmvc, _, hM, hC, r1, r2, s1, s2, hsz, o1, o2⟩ := mvc_correct g hg
+    refine ⟨g, M, cu, cv, rfl, hmvc, ?_, hM.left, hM.right, ?_, ?_, ?_, nodup_of_sorted s1,
+      nodup_of_sorted s2, hsz, ?_, ?_⟩
+    · rintro ⟨u, v⟩ hp; exact (hedge u v).1 (hM.edges _ hp)
+    · rintro ⟨u, v⟩ hp; exact hC u v ((hedge u v).2 hp)
+    · intro u hu; rw [← e1]; exact r1 u hu
+    · intro v hv; rw [← e2]; exact r2 v hv
+    · intro M' h1 h2 h3
+      exact o1 M' ⟨fun p hp => (hedge p.1 p.2).2 (h1 p hp), h2, h3⟩
+    · intro cu' cv' h
+      exact o2 cu' cv' (fun u v huv => h (u, v) ((hedge u v).1 huv))
 
 /-! ### Non-vacuity: concrete instances -/
 
@@ -299,6 +334,8 @@ def exGraph : Graph := (mkGraph 3 4 [(0, 0), (1, 0), (1, 1), (1, 0), (2, 1), (2,
 example : mkGraph 3 4 [(0, 0), (1, 0), (1, 1), (1, 0), (2, 1), (2, 2)] = some exGraph := by decide
 example : exGraph.adjU = [[0], [0, 1], [1, 2]] ∧ exGraph.adjV = [[0, 1], [1, 2], [2], []] := by decide
 example : mkGraph 2 2 [(0, 2)] = none ∧ mkGraph 0 2 [] = none := by decide
+-- hypotheses of `mvc_correct_input`
+example : ∀ p ∈ [(0, 0), (1, 0), (1, 1), (1, 0), (2, 1), (2, 2)], p.1 < 3 ∧ p.2 < 4 := by decide
 example : minimumVertexCover exGraph = .ok ([(0, 0), (1, 1), (2, 2)], [0, 1, 2], []) := by rfl
 example : certificateOk exGraph [(0, 0), (1, 1), (2, 2)] [0, 1, 2] [] = true := by decide
 -- a matching/cover pair for which hypotheses of `weak_duality` / `tight_pair_optimal` hold
@@ -329,8 +366,9 @@ example : (∀ u, u < exStar.nU → (∀ v, (u, v) ∉ [(0, 0)]) → (fun _ => T
   refine ⟨0, ?_, trivial⟩
   rcases h with h | h <;> simp [h.2]
 example : minimumVertexCover exStar = .ok ([(0, 0)], [], [0]) := by rfl
--- hypotheses of `hk_augment_preserves` / `bfs_false_closed`: the initial state is consistent and
--- vertex 1 is free; the BFS on the initial state of `exStar` finds a path (dist[NIL] = 1)
+-- hypotheses of `hk_augment_preserves` / `bfs_false_closed` / `hk_phase_progress`: the initial
+-- state is consistent and vertex 1 is free; the BFS on the initial state of `exStar` finds a path
+-- (dist[NIL] = 1), the final BFS does not (dist[NIL] = inf = 3)
 example : Consistent exStar HK.init ∧ HK.init.mU 1 = none := ⟨init_consistent _, rfl⟩
 example : (bfs exStar HK.init).map (fun d => (d none, d (some 0), d (some 1))) = some (1, 0, 0) := by rfl
 example : (hkRun exStar).toOption.map (fun s => (s.mU 0, s.mU 1, s.mV 0, s.dist none, s.dist (some 0), s.dist (some 1)))
